@@ -212,6 +212,15 @@ def sa_table(t, metadata=None):
         if c.get("computed"):
             args.append(sa.Column(c["name"], sa_type(c["ty"]), sa.Computed(c["computed"], persisted=bool(c.get("persisted"))), **kw))
             continue
+        ident = t.get("identity")
+        if ident and t["pk"] and t["pk"]["cols"] == [c["name"]] and c["ty"].upper() in ("INTEGER", "BIGINT", "SMALLINT"):
+            # copy_from only (reflection never produces these): the integer primary key declared with Identity(always=True),
+            # a plain Identity(), or autoincrement=True.  SQLite ignores the IDENTITY clause: a plain INTEGER PRIMARY KEY.
+            if ident == "autoincrement":
+                args.append(sa.Column(c["name"], sa_type(c["ty"]), autoincrement=True, **kw))
+            else:
+                args.append(sa.Column(c["name"], sa_type(c["ty"]), sa.Identity(always=(ident == "always")), **kw))
+            continue
         args.append(sa.Column(c["name"], sa_type(c["ty"]), **kw))
     if t["pk"]:
         args.append(sa.PrimaryKeyConstraint(*t["pk"]["cols"], name=t["pk"]["name"]))
@@ -562,13 +571,20 @@ def exc_kind(e):
     return n
 
 
+def scratch_dir(prefix):
+    """per-case scratch directory (removed per case) for the SQLite files; on tmpfs when available: every statement of a case is
+    committed (fsync) and a loaded disk otherwise dominates the run time"""
+    base = "/dev/shm" if os.path.isdir("/dev/shm") and os.access("/dev/shm", os.W_OK) else None
+    return tempfile.mkdtemp(prefix=prefix, dir=base)
+
+
 class Db:
     """one scratch SQLite database file holding the table under test (+ a referred table)"""
 
     def __init__(self, table, extra_sql=(), iso="default", main_twin=False):
         """iso: 'default' (pysqlite legacy transaction control), 'autocommit' (isolation_level="AUTOCOMMIT"),
         'begin' (the documented recipe: driver isolation_level=None + BEGIN emitted on SQLAlchemy's begin event)"""
-        self.dir = tempfile.mkdtemp(prefix="verif_batch_")
+        self.dir = scratch_dir("verif_batch_")
         self.path = os.path.join(self.dir, "x.db")
         if iso == "autocommit":
             self.engine = sa.create_engine("sqlite:///" + self.path, isolation_level="AUTOCOMMIT")
@@ -617,7 +633,7 @@ class Db:
 
 
 def run_batch(db, ops, recreate="always", copy_from=False, fault=None, scope="none", universe=(), tddl=None, fkind="exception",
-              pr=None, batch_kw=None, wfilter="ignore"):
+              pr=None, batch_kw=None, wfilter="ignore", identity=None):
     """Runs the real batch_alter_table.  scope: 'none' (connection not in a transaction: flush opens one
     through _ensure_scope_for_ddl), 'outer' (caller's `with conn.begin()`, rolled back by the exception),
     'swallow' (caller's transaction, exception caught inside it, transaction committed).
@@ -656,7 +672,7 @@ def run_batch(db, ops, recreate="always", copy_from=False, fault=None, scope="no
         elif isinstance(copy_from, dict):
             kw["copy_from"] = sa_table(copy_from)      # an explicit Table (the table under the original name may be gone)
         elif copy_from:
-            kw["copy_from"] = sa_table(res["before"]["orig"])
+            kw["copy_from"] = sa_table(dict(res["before"]["orig"], identity=identity))
 
         def body():
             with op.batch_alter_table(tname, **kw) as b:
